@@ -153,6 +153,9 @@ def decision_tree(
                         r = loop_hook(st, assign)
                         if isinstance(r, _Leave):
                             raise r
+                        if isinstance(r, list):  # a summary of the loop, written as statements: interpreted in its place
+                            block(r)
+                            continue
                     executed.append(st)
                 elif isinstance(st, ast.Try):
                     if not try_as_body:
